@@ -23,7 +23,9 @@ def configs(tier):
                     continue
                 for mode in ("a", "w"):
                     for remove_old in (1, 0):
-                        if mode == "a" and remove_old == 0:
+                        if mode == "a" and remove_old == 0 and not (backups in (2, -1) and overwrite == 1):
+                            # the clean-up setting has no meaning in append mode (the previous run's files are recovered either
+                            # way): explored for two backup settings only, must behave exactly like remove_old = 1
                             continue
                         for plant in (0, 1):
                             if tier == "quick" and plant == 1 and not (backups in (1, -1) and overwrite == 1):
